@@ -13,7 +13,7 @@ import (
 func init() {
 	register(&Rule{
 		Name:     "PREFIXBOUND",
-		Doc:      "wherever the value m decoded by ConsumeVarint (with its byte count n) is compared with a length: the length is that of the input AFTER the prefix (`len(b[n:])` with the same n, or `len(b) - n`), never `len(b)` of the whole input",
+		Doc:      "wherever the value m decoded by protowire.ConsumeVarint / BinaryDecoder.Decode{Uint,Int}{32,64} (with its byte count n) is compared with a length: the length is that of the input AFTER the prefix (`len(b[n:])` with the same n, or `len(b) - n`), never `len(b)` of the whole input",
 		Configs:  "NP",
 		Floor:    map[string]int{"N": 1, "P": 1},
 		Controls: 1,
@@ -29,7 +29,14 @@ func runPrefixBound(rc *RuleCtx) {
 		for _, b := range fn.Blocks {
 			for _, ins := range b.Instrs {
 				call, ok := ins.(*ssa.Call)
-				if !ok || call.Call.StaticCallee() == nil || call.Call.StaticCallee().Name() != "ConsumeVarint" || call.Referrers() == nil {
+				if !ok || call.Call.StaticCallee() == nil || call.Referrers() == nil {
+					continue
+				}
+				// ConsumeVarint and the BinaryDecoder.Decode{Uint,Int}{32,64} wrappers: (value, n)
+				if cn := call.Call.StaticCallee().Name(); cn != "ConsumeVarint" && cn != "DecodeUint64" && cn != "DecodeUint32" && cn != "DecodeInt64" && cn != "DecodeInt32" {
+					continue
+				}
+				if pkgRel(call.Call.StaticCallee()) != "proto/protowire" {
 					continue
 				}
 				var m, n *ssa.Extract
